@@ -83,6 +83,12 @@ NUM_LEAF_TYPES = 10
 # key objects
 
 
+class UserExc(Exception):
+    def __init__(self, n):
+        super().__init__(n)
+        self.n = n
+
+
 class KeyBase:
     __slots__ = ('rank', 'uid')
 
@@ -102,6 +108,28 @@ class KeyBase:
 
     def __reduce__(self):
         return (type(self), (self.rank, self.uid))
+
+
+class FlakyKey:
+    """hashable key whose __hash__ can be made to raise (C06 / C15 fault scenarios)"""
+    broken = False
+
+    def __init__(self, n):
+        self.n = n
+
+    def __hash__(self):
+        if FlakyKey.broken:
+            raise UserExc(77)
+        return hash(('FlakyKey', self.n))
+
+    def __eq__(self, other):
+        return type(other) is FlakyKey and other.n == self.n
+
+    def __lt__(self, other):
+        return self.n < other.n
+
+    def __repr__(self):
+        return f'FlakyKey({self.n})'
 
 
 _KEY_CLASSES: dict[tuple[str, bool], type] = {}
@@ -153,12 +181,6 @@ SS_ARITY = [2, 5, 9, 10]
 
 # ---------------------------------------------------------------------------------------------
 # user classes
-
-
-class UserExc(Exception):
-    def __init__(self, n):
-        super().__init__(n)
-        self.n = n
 
 
 class UBase:
